@@ -836,7 +836,7 @@ def route_selection(ck, rule):
         for pf in fpaths(prog, w):
             if pf.end != "return":
                 continue
-            names = {dotted(ce.raw.func) for ce in pf.calls if ce.depth == 0}
+            names = {dotted(ce.call.func) for ce in pf.calls}        # substituted: a stage extracted into a helper calls the same two callables
             if "repr_func" not in names or "raw_func" in names:
                 continue
             n += 1
@@ -849,6 +849,9 @@ def route_selection(ck, rule):
                         return True
                     if isinstance(op, ast.Is) and isinstance(r, ast.Constant) and r.value is None and ("n_frac" in src(l) or (isinstance(l, ast.Constant) and l.value is None)):
                         return True
+                    if isinstance(op, ast.Is) and isinstance(r, ast.Constant) and r.value is None and isinstance(l, ast.Subscript) and isinstance(l.slice, ast.Constant) \
+                            and l.slice.value == 3 and isinstance(l.value, ast.Call) and prog.resolve_call(w, l.value) == A.sizing(prog).qualname:
+                        return True          # the fraction length as returned by the sizing function (4th entry), before any re-binding
                 return False
             why = False
             lits = list(path_literals(pf.guards)) + list(path_literals([(g[2], g[1]) for g in pf.guards if g[2] is not None]))
